@@ -123,16 +123,17 @@ Theorem write_error_exit_partial :
 Proof. exact write_error_exit_partial. Qed.
 Print Assumptions write_error_exit_partial.
 
-(* parity_write accepts a pwrite iff the WHOLE block was transferred; a short count is an error (counted as an I/O error or as a fatal
-   one according to a STALE errno, `stale`: the C tests errno although a short count does not set it), reported in both cases and
-   hence covered by write_error_safe: its stripe ends marked bad *)
+(* parity_write accepts a pwrite iff the WHOLE block was transferred; a short count is an error of the fatal (non-EIO) kind, like
+   ENOSPC (deterministic since /repo 79689a5: errno is cleared on entry and set to ENOSPC for a short count), reported and hence
+   covered by write_error_safe: its stripe ends marked bad *)
 Theorem parity_write_ok_iff_full_count :
-  forall bs stale r, classify_pwrite bs stale r = WOk <-> r = PwCount bs.
+  forall bs r, classify_pwrite bs r = WOk <-> r = PwCount bs.
 Proof. exact classify_pwrite_ok. Qed.
 Print Assumptions parity_write_ok_iff_full_count.
 Theorem short_count_is_reported :
-  forall bs stale n m lag it pos nl l, n <> bs -> l < nl ->
-    In pos (map wr_pos (level_reports m lag it pos (fun k => if Nat.eqb k l then classify_pwrite bs stale (PwCount n) else WOk) nl)).
+  forall bs n m lag it pos nl l, n <> bs -> l < nl ->
+    In (mkWR (report_due m (lag pos l) it) 0 1 pos)
+       (level_reports m lag it pos (fun k => if Nat.eqb k l then classify_pwrite bs (PwCount n) else WOk) nl).
 Proof. exact classify_short_reported. Qed.
 Print Assumptions short_count_is_reported.
 
@@ -173,7 +174,7 @@ Example C08_write_error_fatal_now_bad :
 Proof. exact write_error_fatal_now_bad. Qed.
 
 Example C08_write_short_count_now_bad :
-  let r := sync_loop_w hz 1024 1 wo 7 wfs (fun _ => []) (fun pos l => if Nat.eqb pos 5 then classify_pwrite 1024 false (PwCount 512) else WOk) Mono (fun _ _ => 1)
+  let r := sync_loop_w hz 1024 1 wo 7 wfs (fun _ => []) (fun pos l => if Nat.eqb pos 5 then classify_pwrite 1024 (PwCount 512) else WOk) Mono (fun _ _ => 1)
                        (seq 0 8) None 0 [] [] wc wpar 0 0 0 in
   ro_bailed (w_run r) = true /\ run_failing (w_run r) = true /\ w_fpos r = [5] /\
   recorded_healthy (ro_content (w_run r)) 5 = false /\ nth 5 (nth 0 (ro_parity (w_run r)) []) PNone = PJunk 0 /\
